@@ -394,6 +394,18 @@ def check_toc(mc, md):
         prov = mc.metador.schemas.provider(ref)
         if prov != schemas.provider(ref):
             return ("embedded provider differs", ep)
+        if ref not in prov.plugins.get("schema", []):
+            return ("embedded package does not list the schema it provides", ep)
+    # every stored object validates against the embedded JSON Schema of its schema
+    import jsonschema
+
+    for uu, (path, ep) in objs.items():
+        name, ver = from_ep_name(ep)
+        emb = mc.metador.schemas[schemas.PluginRef(name=name, version=ver)]
+        try:
+            jsonschema.validate(json.loads(nodes[path][()].decode("utf-8")), emb)
+        except jsonschema.ValidationError as e:
+            return ("stored object does not validate against the embedded schema", path, str(e)[:200])
     return None
 
 
